@@ -353,7 +353,7 @@ MUTANTS = [
     dict(rule='C20.order', name='sort removed in _arrange', file='sc3/synth/ugen.py',
          old="        descendants = list(self._descendants)\n        descendants.sort(key=lambda x: x._synth_index)\n", new="        descendants = list(self._descendants)\n"),
     dict(rule='C20.order', name='dead-code pass iterates antecedent set', file='sc3/synth/ugen.py',
-         old="            for input in self.inputs:\n                if isinstance(input, UGen) and input._descendants:", new="            for input in self._antecedents:\n                if isinstance(input, UGen) and input._descendants:"),
+         old="            for input in self.inputs:\n                if isinstance(input, UGen) and input._descendants\\\n", new="            for input in self._antecedents:\n                if isinstance(input, UGen) and input._descendants\\\n"),
     dict(rule='C20.order', name='constants numbered from the set', file='sc3/synth/synthdef.py',
          old="            self._constants[value] = len(self._constants)", new="            self._constants[value] = list(self._constant_set).index(value)"),
     dict(rule='C20.pure', name='class-level unit counter used on the build path', file='sc3/synth/ugen.py',
